@@ -23,7 +23,7 @@ ANCHORS = ["runlengtharray.py::RunLength2dArray.from_array", "runlengtharray.py:
            "runlengtharray.py::RunLengthRaggedArray.__array_function__", "runlengtharray.py::rlra_concatenate", "runlengtharray.py::RunLength2dArray.from_intervals",
            "runlengtharray.py::RunLengthRaggedArray.ravel", "runlengtharray.py::RunLength2dArray.to_array", "runlengtharray.py::RunLengthRaggedArray.to_array"]
 OPS = ["decode", "meta", "rows", "elem", "col_int", "col_slice", "red_row", "red_col", "ravel", "concat", "npfunc", "unary", "scalar", "colvec", "intervals", "sel_inplace"]
-FLOOR_TAGS = ["op:" + o for o in OPS] + ["variant:2d", "variant:ragged", "variant:ragged_from_matrix", "rows:int", "rows:slice", "rows:list", "rows:mask",
+FLOOR_TAGS = ["op:" + o for o in OPS] + ["variant:2d", "variant:ragged", "variant:ragged_from_matrix", "rows:int", "rows:slice", "rows:list", "rows:mask", "rows:progression", "rows:list-as-array", "pre:stepped",
                                          "cs:pos", "cs:neg", "side:L", "side:R", "red:argmax", "red:mean", "col:sum", "col:mean", "col:col_counts", "col:any", "j:neg",
                                          "kind:b", "kind:i", "kind:u", "kind:f", "order:F", "order:T", "source:lazyrows", "source:lazychain", "via:intervals", "via:plus1", "concat:mixed-dtypes", "concat:zero-row-operands", "scalar:0-d-array", "scalar:numpy-typed", "axis:-2"]
 FLOOR_MONITORS = ["c17:compare", "inv:rla"]
@@ -138,9 +138,11 @@ def run(case):
     rlx, rows = c.value
     pyrows = [r.tolist() for r in rows]
     pre = case.get("pre")
-    if pre and variant != "2d" and all(len(r) > pre[0] for r in rows):
+    if pre and variant != "2d" and all(len(r[slice(*pre)]) > 0 for r in rows):
         # the receiver is itself the result of a column-range selection (non-empty in every row): it is a ragged run-length array like any other
-        sl_ = slice(pre[0], pre[1])
+        sl_ = slice(*pre)
+        if len(pre) > 2 and pre[2] not in (None, 1):
+            tags.append("pre:stepped")
         p_ = attempt(lambda: rlx[:, sl_])
         if not p_.ok:
             return violated("rl[:, %s:%s] of the %s variant of %s rows %s raised %r" % (pre[0], pre[1], variant, dt, short(pyrows, 200), p_), tags)
@@ -177,6 +179,11 @@ def run(case):
         else:
             o = ("2d", [r for r, m in zip(pyrows, rs) if m])
         idx = np.array(rs) if k == "mask" else rs
+        if k == "list" and case.get("rs_array"):
+            idx = np.array(rs, dtype=case["rs_array"])
+            tags.append("rows:list-as-array")
+        if k == "list" and len(rs) >= 3 and len(set(np.diff(rs).tolist())) == 1:
+            tags.append("rows:progression")
         a = attempt(lambda: to_rows(rlx[idx]))
         what = "rl[%s]" % short(rs)
     elif op == "elem":
@@ -195,6 +202,9 @@ def run(case):
         else:
             sel = [pyrows[i] for i in rs]
         idx = np.array(rs) if (not isinstance(rs, slice) and rs is not Ellipsis and np.asarray(rs).dtype == bool) else rs
+        if isinstance(rs, list) and case.get("rs_array") and np.asarray(rs).dtype != bool:
+            idx = np.array(rs, dtype=case["rs_array"])
+            tags.append("rows:list-as-array")
         if op == "col_int":
             j = case["j"]
             if j < 0:
@@ -373,6 +383,14 @@ def sel_rows(rng, n, kinds=("slice", "list", "mask", "ell")):
     if k == "slice":
         return gen.gen_slice(rng, n, steps=(None, 1, 2, -1, -2))
     if k == "list":
+        if n >= 3 and rng.random() < 0.3:
+            # an arithmetic progression of row numbers (what a slice would also give), in either direction, possibly down to the first row
+            st_ = rng.choice([1, 1, 2, 3, -1, -1, -2, -3])
+            cnt_ = rng.randint(3, max(3, (n - 1) // abs(st_) + 1))
+            first_ = rng.randint(0, n - 1) if st_ > 0 else rng.choice([n - 1, rng.randint(0, n - 1), (cnt_ - 1) * -st_])
+            ap_ = [first_ + i * st_ for i in range(cnt_)]
+            if all(0 <= x < n for x in ap_):
+                return ap_
         return [rng.randint(-n, n - 1) for _ in range(rng.randint(1, 4))]
     if k == "mask":
         return [rng.random() < 0.6 for _ in range(n)]
@@ -472,6 +490,8 @@ def gen_case(rng, tier, op=None, variant=None, dtype=None):
             return c
         if op in ("red_row", "red_col", "unary", "scalar") and variant != "2d" and rng.random() < 0.2:
             c["pre"] = [rng.choice([0, 0, 1]), rng.choice([None, 2, 3, 5])]
+            if rng.random() < 0.4:
+                c["pre"] = rng.choice([[rng.choice([0, 0, 1, 2]), rng.choice([None, 3, 4, 5, 6]), rng.choice([2, 2, 3])], [None, None, rng.choice([-1, -2])]])
         if op == "red_row":
             c["name"] = rng.choice(["sum", "any", "all"] if variant == "2d" else ["sum", "any", "all", "max", "mean", "argmax"])
             return c
@@ -521,6 +541,7 @@ def gen_case(rng, tier, op=None, variant=None, dtype=None):
 def directed():
     import random
     rng = random.Random(1717)
+    yield from stepped_cases()
     # 64-bit integers whose terms and partial row sums lie beyond 2**53 and cancel: row sums are exact in 64-bit integer arithmetic
     big_ = [[2 ** 60] * 3 + [1] * 4 + [-2 ** 60] * 3, [2 ** 62, 2 ** 62 - 1, -2 ** 62, 5, 5, -2 ** 62, 0, 0, 9, 9], [7] * 10, [2 ** 53 + 1] * 2 + [3] * 6 + [-2 ** 53] * 2]
     for variant_ in ("2d", "ragged", "ragged_from_matrix"):
@@ -582,6 +603,36 @@ def directed():
         yield {"op": "red_col", "variant": "2d", "dtype": "bool", "rows": rows, "name": "sum"}
         yield {"op": "red_col", "variant": "2d", "dtype": "bool", "rows": rows, "name": "any"}
     yield {"op": "intervals", "starts": [0, 2, 0], "ends": [5, 5, 1], "row_len": 5, "value": 1}
+
+
+def stepped_cases():
+    """rows made of long runs (every run at least as long as the step), every stepped column range over them, then a look at the result
+    through its reductions as well as its cells: a range end that cuts a run must not leave anything of the cut part behind"""
+    fam = [[[7, 7, 7, 9, 9, 9, 9], [1, 1, 1, 1, 5, 5, 5, 5]], [[4, 4, 4, 0, 0, 0, 8, 8, 8], [2, 2, 2, 2, 2, 2, 6, 6, 6], [3, 3, 3, 3, 1, 1, 1, 1, 1]], [[5, 5, 2, 2, 9, 9], [0, 0, 0, 7, 7, 7]]]
+    for rows_ in fam:
+        mx = max(len(r) for r in rows_)
+        for step_ in (2, 3):
+            for start_ in (None, 0, 1, 2):
+                for stop_ in [None] + list(range(1, mx + 1)):
+                    pre_ = [start_, stop_, step_]
+                    if not all(len(r[slice(*pre_)]) > 0 for r in rows_):
+                        continue
+                    for dtype_ in ("int64", "float64"):
+                        for name_ in ("max", "argmax", "any", "sum", "all"):
+                            yield {"op": "red_row", "variant": "ragged", "dtype": dtype_, "rows": rows_, "name": name_, "pre": pre_}
+                        yield {"op": "decode", "variant": "ragged", "dtype": dtype_, "rows": rows_, "pre": pre_}
+                        yield {"op": "red_col", "variant": "ragged", "dtype": dtype_, "rows": rows_, "name": "sum", "pre": pre_}
+                        yield {"op": "scalar", "variant": "ragged", "dtype": dtype_, "rows": rows_, "uf": "add", "side": "R", "scalar": 1, "pre": pre_}
+    # row lists that happen to be arithmetic progressions (a block, every k-th row, a walk down to the first row), as lists and as arrays
+    R7 = [[i, i, i + 1] + [0] * (i % 3) + [5] for i in range(7)]
+    for rs_ in ([0, 1, 2], [1, 2, 3], [0, 2, 4], [0, 3, 6], [6, 5, 4], [2, 1, 0], [4, 2, 0], [6, 3, 0], [5, 3, 1], [6, 4, 2], [6, 4, 2, 0], [3, 3, 3], [0, 2, 4, 6], [-1, -3, -5], [-7, -5, -3], [1, 3, 5, 6]):
+        for asarr_ in (None, "int64", "int16", "uint8"):
+            if asarr_ == "uint8" and min(rs_) < 0:
+                continue
+            yield {"op": "rows", "variant": "ragged", "dtype": "int64", "rows": R7, "rs": rs_, "rs_array": asarr_}
+            yield {"op": "rows", "variant": "2d", "dtype": "int64", "rows": [[i, i, i + 1, 0] for i in range(7)], "rs": rs_, "rs_array": asarr_}
+            yield {"op": "col_slice", "variant": "ragged", "dtype": "int64", "rows": R7, "rs": rs_, "rs_array": asarr_, "cs": slice(1, 3)}
+            yield {"op": "col_int", "variant": "ragged", "dtype": "int64", "rows": R7, "rs": rs_, "rs_array": asarr_, "j": 1}
 
 
 def _with_swap(rng, c):
